@@ -19,8 +19,35 @@ CONSTRUCTOR_WHY = ("builds a fresh item (graph): every write goes to objects cre
                    "unreachable if the call fails; the id counter and the insert-only id map are not observable")
 
 
+_INTERNAL = set()      # private helpers that are only ever called from constructors (computed per fact set by prepare())
+
+
 def is_constructor(path):
-    return CONSTRUCTOR_RX.search(path) is not None
+    return CONSTRUCTOR_RX.search(path) is not None or path in _INTERNAL
+
+
+def prepare(facts):
+    """A private function all of whose callers are constructors (or such helpers) works on the fresh object graph of its
+    caller: XmlDocumentTypeDeclaration::build is the body of ::node and of the document constructor."""
+    _INTERNAL.clear()
+    callers = {}
+    for fid, es in facts.edges().items():
+        for e in es:
+            if e["to"] in facts.fns and e["kind"] in ("call", "cha", "fwd", "mention", "store"):
+                callers.setdefault(e["to"], set()).add(fid)
+    changed = True
+    while changed:
+        changed = False
+        for fid, f in facts.fns.items():
+            if f["crate"] != "xml_info" or f["path"] in _INTERNAL or f.get("vis") == "Public" or CONSTRUCTOR_RX.search(f["path"]):
+                continue
+            cs = callers.get(fid)
+            if not cs:
+                continue
+            if all(is_constructor(facts.fns[c]["path"]) or facts.fns[c].get("parent") == f["path"] for c in cs):
+                _INTERNAL.add(f["path"])
+                changed = True
+    return sorted(_INTERNAL)
 
 
 def item_types(facts):
@@ -64,6 +91,7 @@ def direct_mutators(facts):
 
 def may_mutate_closure(facts, exclude=NOT_OBSERVABLE):
     """Set of fn ids from which an observable mutator is reachable (including themselves)."""
+    prepare(facts)
     direct = {fid for fid in direct_mutators(facts)
               if facts.fns[fid]["path"] not in exclude and not is_constructor(facts.fns[fid]["path"])}
     # reverse reachability over the call graph
